@@ -86,6 +86,6 @@ func TestC43(t *testing.T) {
 }
 
 func TestC49(t *testing.T) {
-	runXfer(t, "C49", "exploration", 16, 24, 90, Triangle, func(p *Profile) { p.HostileSend = 14 },
-		map[string]int64{"hostile_sends": 100, "authorization_checks": 200, "ledger_accounts_compared": 5000})
+	runXfer(t, "C49", "exploration", 16, 24, 90, Triangle, func(p *Profile) { p.HostileSend, p.Grant, p.Exec = 14, 5, 14 },
+		map[string]int64{"hostile_sends": 100, "authorization_checks": 200, "ledger_accounts_compared": 5000, "exec-without-grant_rejected": 30, "debits_authorised_by_grant": 5})
 }
